@@ -336,7 +336,7 @@ def check_c07(tier, seed):
             log("  %s: %s" % (where, what[:300]))
         run.cov["deviations_used"] = sorted(used)
         run.cov["universe"] = "reflection over every exported method of MemFS, OrefaFS, RoFS, BasePathFS, FailFS (transparent and always failing), their " \
-                              "files (open, read-only, directory, closed, nil) and MemIdm/users/groups x adversarial argument tuples; the bounded universes of " \
+                              "files (open, read-only, directory, closed, nil, and whatever a failed Create/CreateTemp/OpenFile hands back with its error) and MemIdm/users/groups x adversarial argument tuples; the bounded universes of " \
                               "the namespace, symlink, handle and wrapper specifications (L<=%d); all schedules explored for C06; free-running programs with a watchdog" % L
         run.cov["exhaustive"] = False
         if not run.cov["samples"]:
